@@ -41,7 +41,7 @@ void *__wrap_realloc(void *p, size_t n)
 
 /* ------------------------------------------------------------------ system */
 #define NSLOT 3
-static int P = 2, LEVEL = 5;
+static int P = 2; static unsigned LEVEL = 5;      /* the runtime debug level is an unsigned int: 0xffffffff is the highest level there is */
 typedef struct { void *p; size_t size; int tracked; char file[24]; unsigned line; unsigned char fill; } slot_t;
 typedef struct { slot_t s[NSLOT]; void *raw; void *dead; int ntracked; } st_t;
 enum { K_MALLOC8, K_MALLOC64, K_CALLOC, K_STRDUP, K_REALLOC_NULL, K_REALLOC0, K_REALLOC8_MOVE, K_REALLOC8_STAY, K_REALLOC64_MOVE, K_REALLOC64_STAY, K_FREE, NK_SLOT,
@@ -265,6 +265,11 @@ static void hugeblock_case(void)
     }
     { void *q = CALLOC(char, sz); if (q) { if (malloc_rec.cnt != 1 || malloc_rec.ptrs[0].size != sz) FAIL("spifmem", "model:record-size", "block above 4 GiB", "CALLOC of 2^32+32 bytes: recorded size %lu", malloc_rec.cnt ? (unsigned long) malloc_rec.ptrs[0].size : 0UL); FREE(q); } }
     malloc_rec.cnt = 0; libast_debug_level = 0;
+    /* an element count whose product with the element size does not fit into size_t: no block (runtime level 0: a failed allocation is reported, not fatal) */
+    { void *q = CALLOC(long, ((size_t) 1 << 61) + 1);
+      if (q) { FAIL("spifmem", "model:calloc-overflow", "block above 4 GiB", "CALLOC of 2^61+1 longs returned a block"); free(q); }
+      if (malloc_rec.cnt != 0) FAIL("spifmem", "model:record-count", "block above 4 GiB", "a refused CALLOC left %lu records", (unsigned long) malloc_rec.cnt); }
+    malloc_rec.cnt = 0;
     mc_nontrivial();
 }
 #endif
@@ -304,11 +309,11 @@ int main(int argc, char **argv)
     P = (int) mc_arg_int("pool", mc_thorough() ? 3 : 2);
     build_ops();
     mc_info("alphabet", "DEBUG=%d build; pool of %d pointers; %d opcodes: MALLOC(8|64), CALLOC, STRDUP, REALLOC(NULL), REALLOC(p,0|8|64) x {allocator moves, stays}, FREE, FREE/REALLOC of an untracked block, "
-            "of an already-freed pointer, FREE(NULL); runtime levels 5 and 4; file names shorter than, exactly and longer than 20 characters", DEBUG, P, NOPS);
-    int levels[2] = { 5, 4 };
-    for (int li = 0; li < 2 && !mc_arg("only", NULL); li++) {
+            "of an already-freed pointer, FREE(NULL); runtime levels 5, 4 and 0xffffffff; file names shorter than, exactly and longer than 20 characters", DEBUG, P, NOPS);
+    unsigned levels[3] = { 5, 4, 0xffffffffu };
+    for (int li = 0; li < 3 && !mc_arg("only", NULL); li++) {
         LEVEL = levels[li];
-        static char name[2][40]; snprintf(name[li], sizeof name[li], "memtrack_build%d_level%d", TRACKED ? 5 : 4, LEVEL);
+        static char name[3][48]; snprintf(name[li], sizeof name[li], "memtrack_build%d_level%u", TRACKED ? 5 : 4, LEVEL);
         mc_sys sys = { name[li], NOPS, op_name, fresh, enabled, apply, NULL, canon, teardown, (int) mc_arg_int("lookahead", 1) };
         mc_e1_run(&sys, (int) mc_arg_int("depth", 40));
     }
